@@ -116,7 +116,7 @@ pub fn run_check(spec: &PropertySpec, opts: &CheckOpts) -> i32 {
         for s in r.agg.signatures {
             total.signatures.insert(s ^ (ui as u64).wrapping_mul(0x9E37_79B9_7F4A_7C15));
         }
-        let mine_here = r.found.iter().any(|f| f.v.property() == spec.id);
+        let mine_here = r.found.iter().any(|f| f.v.property() == spec.id && matches_open(&kf, &f.v).is_none());
         found.extend(r.found);
         if opts.fast_fail && mine_here {
             break;
